@@ -174,9 +174,12 @@ impl BitFont {
     // const PSF1_MODEHASSEQ: u8 = 0x04;
     // const PSF1_MAXMODE: u8 = 0x05;
 
-    fn load_psf1(font_name: impl Into<String>, data: &[u8]) -> Self {
+    fn load_psf1(font_name: impl Into<String>, data: &[u8]) -> EngineResult<Self> {
         let mode = data[2];
         let charsize = data[3];
+        if charsize == 0 || charsize as usize > MAX_FONT_HEIGHT {
+            return Err(FontError::UnsupportedSize(8, charsize as usize).into());
+        }
         let length = if mode & BitFont::PSF1_MODE512 == BitFont::PSF1_MODE512 { 512 } else { 256 };
 
         let mut res = Self {
@@ -189,14 +192,14 @@ impl BitFont {
             checksum: 0,
         };
         res.calculate_checksum();
-        res
+        Ok(res)
     }
 
     fn load_plain_font(font_name: impl Into<String>, data: &[u8]) -> EngineResult<Self> {
-        if data.len() % 256 != 0 {
+        let char_height = data.len() / 256;
+        if data.len() % 256 != 0 || char_height == 0 || char_height > MAX_FONT_HEIGHT {
             return Err(FontError::UnknownFontFormat(data.len()).into());
         }
-        let char_height = data.len() / 256;
         let size = Size::new(8, char_height as i32);
         let mut res = Self {
             name: font_name.into(),
@@ -307,7 +310,7 @@ impl BitFont {
         }
         let magic16 = u16::from_le_bytes(data[0..2].try_into().unwrap());
         if magic16 == BitFont::PSF1_MAGIC {
-            return Ok(BitFont::load_psf1(font_name, data));
+            return BitFont::load_psf1(font_name, data);
         }
 
         let magic32 = u32::from_le_bytes(data[0..4].try_into().unwrap());
